@@ -2,6 +2,7 @@ SPECIFICATION GSpec
 CONSTANTS
   Mods <- GenMods
   Absent <- GenAbsent
+  Broken <- GenBroken
   Variant = "repaired"
   MaxHistory = 100
   Depth = 5
